@@ -38,41 +38,62 @@ impl LanguageServer {
     }
 
     pub async fn run(mut self) -> Result<()> {
-        let mut handles = vec![];
         // spawn thread which handles sending back messages to the client
         let stdout = tokio::io::stdout();
         let (iotx, iorx) = mpsc::channel(32);
-        handles.push(tokio::spawn(io::responder(stdout, iorx)));
+        let responder = tokio::spawn(io::responder(stdout, iorx));
 
         // decode messages, while stdin is not closed
         let stdin = tokio::io::stdin();
         let mut framed_read = FramedRead::new(stdin, io::LSCodec);
 
-        phases::initialization(&mut self, &mut framed_read, iotx.clone())
+        let outcome = self.serve(&mut framed_read, iotx).await;
+
+        // Whatever ended the session, every response that was already produced
+        // must reach the client before the process terminates.
+        responder.await.expect("Cannot await handle");
+        if let Some(exit_code) = outcome? {
+            std::process::exit(exit_code); // ungraceful exit
+        }
+        Ok(())
+    }
+
+    /// Runs through the phases of a session.
+    /// Returns the exit code, if the client requested an `exit` without a shutdown.
+    async fn serve(
+        &mut self,
+        framed_read: &mut FramedRead<tokio::io::Stdin, io::LSCodec>,
+        iotx: mpsc::Sender<io::Message>,
+    ) -> Result<Option<i32>> {
+        let exit_code = phases::initialization(self, framed_read, iotx.clone())
             .await
             .wrap_err("Unexpected error occured during initialization")?;
+        if exit_code.is_some() {
+            return Ok(exit_code);
+        }
 
         // spawn thread which handles document synchronization
         let (doctx, docrx) = mpsc::channel(32);
-        handles.push(tokio::spawn(document::broker(
+        let broker = tokio::spawn(document::broker(
             docrx,
             iotx.clone(),
             self.client_details.diagnostics,
-        )));
+        ));
 
-        phases::main(&mut framed_read, iotx.clone(), doctx.clone())
+        let result = match phases::main(framed_read, iotx.clone(), doctx.clone())
             .await
-            .wrap_err("Unexpected error occured during main phase")?;
-
-        phases::shutdown(&mut framed_read, iotx)
-            .await
-            .wrap_err("Unexpected error occured during shutdown")?;
+            .wrap_err("Unexpected error occured during main phase")
+        {
+            Ok(None) => phases::shutdown(framed_read, iotx)
+                .await
+                .wrap_err("Unexpected error occured during shutdown")
+                .map(|_| None),
+            other => other,
+        };
 
         drop(doctx);
-        for handle in handles {
-            handle.await.expect("Cannot await handle");
-        }
-        Ok(())
+        broker.await.expect("Cannot await handle");
+        result
     }
 }
 
@@ -111,11 +132,12 @@ mod phases {
         }};
     }
 
+    /// Returns the exit code, if the client requested an `exit`.
     pub(super) async fn initialization(
         ls: &mut LanguageServer,
         framed_read: &mut FramedRead<Stdin, LSCodec>,
         iotx: Sender<Message>,
-    ) -> Result<()> {
+    ) -> Result<Option<i32>> {
         while let Some(frame) = framed_read.next().await {
             let message = frame.wrap_err("Recieved frame with error")?;
             match message {
@@ -138,7 +160,7 @@ mod phases {
                 }
                 Message::Notification(notification) => {
                     if notification.method.as_str() == Exit::METHOD {
-                        std::process::exit(1) // ungraceful exit
+                        return Ok(Some(1)); // ungraceful exit
                     }
                 }
                 Message::Response(response) => {
@@ -160,7 +182,7 @@ mod phases {
                 }
                 Message::Notification(notification) => match notification.method.as_str() {
                     Initialized::METHOD => break, // Server is properly initialized and can start working
-                    Exit::METHOD => std::process::exit(1), // ungraceful exit
+                    Exit::METHOD => return Ok(Some(1)), // ungraceful exit
                     _ => { /* drop all other notifications */ }
                 },
                 Message::Response(response) => {
@@ -168,14 +190,15 @@ mod phases {
                 }
             };
         }
-        Ok(())
+        Ok(None)
     }
 
+    /// Returns the exit code, if the client requested an `exit` without a shutdown.
     pub(super) async fn main(
         framed_read: &mut FramedRead<Stdin, LSCodec>,
         iotx: Sender<Message>,
         doctx: Sender<DocumentRequest>,
-    ) -> Result<()> {
+    ) -> Result<Option<i32>> {
         while let Some(frame) = framed_read.next().await {
             let message = frame.wrap_err("Recieved frame with error")?;
             match message {
@@ -193,7 +216,7 @@ mod phases {
                             let (_, response) = request.split();
                             let response = response.into_result_response(Value::Null);
                             iotx.send(Message::Response(response)).await?;
-                            return Ok(());
+                            return Ok(None);
                         }
                         GotoDeclaration::METHOD => {
                             respond!(request, features::goto::declaration, doctx.clone())
@@ -260,7 +283,7 @@ mod phases {
                         DidCloseTextDocument::METHOD => {
                             note!(notification, document::close, doctx.clone());
                         }
-                        Exit::METHOD => std::process::exit(1), // ungraceful exit
+                        Exit::METHOD => return Ok(Some(1)), // ungraceful exit
                         _ => { /* drop all other notifications */ }
                     };
                 }
@@ -269,7 +292,7 @@ mod phases {
                 }
             }
         }
-        Ok(())
+        Ok(None)
     }
 
     pub(super) async fn shutdown(
